@@ -94,6 +94,7 @@ func setupRevVec(fx *vfixture, rv *RevVecIn) {
 	}
 	if rv.Err {
 		fx.rev.err = errors.New("mock: validator failure")
+		fx.rev.errWithResults = len(rv.Vec)%2 == 1 || rv.Iface == "deprecated" // (some validators hand out what they have so far)
 	}
 	switch rv.Method {
 	case "OCSP":
